@@ -21,6 +21,7 @@ import (
 	"bufio"
 	"bytes"
 	"encoding/json"
+	"errors"
 	"fmt"
 	"net"
 	"os"
@@ -70,6 +71,7 @@ type vfInput struct {
 type vfDB struct {
 	mu    sync.Mutex
 	ans   map[string]ipinfo.IPInfo
+	fail  map[string]bool // clients for which the database ERRORS (e.g. an IPv6 client against an IPv4-only MMDB)
 	calls []string
 }
 
@@ -77,8 +79,15 @@ func (d *vfDB) GetIPInfo(ip net.IP) (ipinfo.IPInfo, error) {
 	d.mu.Lock()
 	defer d.mu.Unlock()
 	d.calls = append(d.calls, ip.String())
+	if d.fail[ip.String()] {
+		return ipinfo.IPInfo{}, errors.New("scripted database failure")
+	}
 	return d.ans[ip.String()], nil
 }
+
+// clients (indices into vfClientIPs) whose lookups fail when a behaviour runs with the erroring database: the global
+// IPv6 client and the private IPv4 client (both are looked up: Go-global addresses)
+var vfFailing = map[int]bool{2: true, 4: true}
 
 func vfLocTuple(x int) ipinfo.IPInfo {
 	cc := string([]byte{byte('A' + x), byte('A' + x)})
@@ -455,18 +464,21 @@ func (r *vfRun) step(st vfStep) {
 	}
 }
 
-func vfExpLabel(ip int, db bool, locmap []int) []string {
+func vfExpLabel(ip int, db bool, dbErr bool, locmap []int) []string {
 	if !db {
 		return []string{"", "", ""}
 	}
 	if vfClientLocal[ip-1] {
 		return []string{"XL", "", ""}
 	}
+	if dbErr && vfFailing[ip] {
+		return []string{"XD", "", ""} // C20 table: database error for a global address
+	}
 	li := vfLocTuple(locmap[ip-1])
 	return []string{li.CountryCode.String(), fmt.Sprint(li.ASN.Number), li.ASN.Organization}
 }
 
-func (r *vfRun) behaviour(idx int, beh []vfStep, useDB bool, unitMs int) {
+func (r *vfRun) behaviour(idx int, beh []vfStep, useDB bool, dbErr bool, unitMs int) {
 	if len(beh) == 0 || beh[0].A != "Init" {
 		r.t.Fatalf("HARNESS-ERROR: behaviour %d does not start with Init", idx)
 	}
@@ -474,9 +486,12 @@ func (r *vfRun) behaviour(idx int, beh []vfStep, useDB bool, unitMs int) {
 	var db *vfDB
 	var ip2info ipinfo.IPInfoMap
 	if useDB {
-		db = &vfDB{ans: map[string]ipinfo.IPInfo{}}
+		db = &vfDB{ans: map[string]ipinfo.IPInfo{}, fail: map[string]bool{}}
 		for i := range locmap {
 			db.ans[net.ParseIP(vfClientIPs[i]).String()] = vfLocTuple(locmap[i])
+			if dbErr && vfFailing[i+1] {
+				db.fail[net.ParseIP(vfClientIPs[i]).String()] = true
+			}
 		}
 		ip2info = db
 	}
@@ -497,14 +512,14 @@ func (r *vfRun) behaviour(idx int, beh []vfStep, useDB bool, unitMs int) {
 	labels := [][]string{}
 	addrs := []string{}
 	for i := range locmap {
-		labels = append(labels, vfExpLabel(i+1, useDB, locmap))
+		labels = append(labels, vfExpLabel(i+1, useDB, dbErr, locmap))
 		addrs = append(addrs, vfTCPAddr(i+1).String())
 	}
 	lst := []string{}
 	for _, l := range vfListeners {
 		lst = append(lst, l.String())
 	}
-	r.out.emit(map[string]any{"ev": "Reset", "beh": idx, "db": useDB, "labels": labels, "clients": addrs, "listeners": lst,
+	r.out.emit(map[string]any{"ev": "Reset", "beh": idx, "db": useDB, "dberr": useDB && dbErr, "labels": labels, "clients": addrs, "listeners": lst,
 		"mode": r.mode, "unit_ms": unitMs})
 	maxS := 0
 	for _, st := range beh[1:] {
@@ -591,12 +606,14 @@ func TestVerifTunnelTime(t *testing.T) {
 	out.emit(map[string]any{"ev": "Mode", "mode": mode})
 	r := &vfRun{t: t, k: k, out: out, mode: mode, child: in.Child}
 	for i, beh := range in.Behaviours {
-		useDB := in.DB == "fake" || (in.DB == "alt" && i%2 == 0)
+		// alt: database with answers / no database / database that errors for some global clients, round robin
+		useDB := in.DB == "fake" || in.DB == "fakeerr" || (in.DB == "alt" && i%3 != 1)
+		dbErr := in.DB == "fakeerr" || (in.DB == "alt" && i%3 == 2)
 		unitMs := 1000
 		if len(in.UnitsMs) > 0 {
 			unitMs = in.UnitsMs[i%len(in.UnitsMs)]
 		}
-		r.behaviour(i, beh, useDB, unitMs)
+		r.behaviour(i, beh, useDB, dbErr, unitMs)
 		if in.Child {
 			out.w.Flush()
 		}
